@@ -652,6 +652,12 @@ static const char *C19_PAYLOADS[] = {
 	"{\"exp\":\"x\",\"nbf\":1699999900,\"iss\":\"good\",\"sub\":\"good\",\"aud\":\"good\"}",
 	"{\"exp\":1700000100,\"nbf\":1699999900,\"iss\":7,\"sub\":\"good\",\"aud\":[\"good\"]}",
 	"{}",
+	/* wrongly typed and null members: a snapshot/restore around the callback must not confuse them with absent ones */
+	"{\"exp\":null,\"nbf\":1699999900,\"iss\":\"good\",\"sub\":\"good\",\"aud\":\"good\"}",
+	"{\"exp\":1700000100,\"nbf\":null,\"iss\":\"good\",\"sub\":\"good\",\"aud\":\"good\"}",
+	"{\"exp\":1700000100,\"nbf\":1699999900,\"iss\":null,\"sub\":null,\"aud\":null}",
+	"{\"exp\":true,\"nbf\":false,\"iss\":\"good\",\"sub\":\"good\",\"aud\":\"good\"}",
+	"{\"exp\":1700000100.5,\"nbf\":[1699999900],\"iss\":\"good\",\"sub\":{\"a\":\"good\"},\"aud\":\"good\"}",
 };
 #define NC19P ((int)(sizeof C19_PAYLOADS / sizeof *C19_PAYLOADS))
 
